@@ -76,7 +76,12 @@ partial def exprOf (fk : Array FKind) (j : Json) (refsMode : Bool := false) : Ex
       let op ← binOpOf (← getS j "op")
       let l ← exprOf (← j.getObjVal? "l")
       let r ← exprOf (← j.getObjVal? "r")
-      match op.isCmp, l, r with
+      -- an element reached through a list subscript is an expression object, not a field object: the
+      -- reflected-operand rule of Python does not apply to it
+      let viaIdx := fun (x : Json) => (x.getObjVal? "viaIndex").toOption.bind (·.getBool?.toOption) |>.getD false
+      let lj ← j.getObjVal? "l"
+      let rj ← j.getObjVal? "r"
+      match op.isCmp && !viaIdx lj && !viaIdx rj, l, r with
       | true, .fld a, .fld b =>
         match fk[a]?, fk[b]? with
         | some ka, some kb =>
